@@ -13,7 +13,7 @@ PID = "C20"
 
 def make_cases(tier, seed):
     cases = gen_sel.gen_isolation(seed) + gen_sel.gen_invalid(seed)
-    cases += gen_sel.gen_random(seed, 2500 if tier == "quick" else 40000)
+    cases += gen_sel.gen_random(seed, 8000 if tier == "quick" else 60000)
     return cases
 
 
